@@ -12,11 +12,18 @@ import (
 )
 
 func main() {
-	p, err := eng.Load("/repo", "linux", "amd64", false)
+	repo := "/repo"
+	if r := os.Getenv("REPO"); r != "" {
+		repo = r
+	}
+	p, err := eng.Load(repo, "linux", "amd64", false)
 	if err != nil {
 		panic(err)
 	}
-	if os.Args[1] == "cp" { dbgCP(p); return }
+	if os.Args[1] == "cp" {
+		dbgCP(p)
+		return
+	}
 	p.SetKnown(props.KnownNames())
 	fmt.Println("transparent:", p.TransparentNames())
 	fn := p.Fn(os.Args[1])
@@ -43,7 +50,10 @@ func main() {
 		fmt.Println("block", b, "states", len(x.Debug[b]))
 		k := 0
 		for h := range x.Debug[b] {
-			if len(h) > 700 { h = h[:700] }; fmt.Println("   ", h)
+			if len(h) > 1500 {
+				h = h[:1500]
+			}
+			fmt.Println("   ", h)
 			k++
 			if k > 1 {
 				break
